@@ -1,4 +1,56 @@
-(* placeholder until proofs land *)
-From PV Require Import Model.AnnotationOps.
-Theorem C07_placeholder : True. Proof. exact I. Qed.
-Print Assumptions C07_placeholder.
+(* C07  Cropping or extruding an annotation never loses, duplicates or relabels a track.
+   Proved: in 'loose' and 'strict' mode the result is the restriction of the track map to the
+   selected segments (whole segments; every track keeps name and label; an unselected segment is
+   absent); uri and modality are carried over in all three modes; extrude IS crop on the gaps of
+   `removed` within the extent with loose and strict swapped; in 'intersection' mode the name used
+   for every inserted track is the original name when free on the piece and otherwise a name not in
+   use there, so no insertion overwrites an earlier one (pigeonhole proof in C19).
+   Tied by the correspondence, not proved: that the intersection-mode result holds exactly one
+   track per (original track, region) request with the original label (checked on every case by the
+   order-independent boolean specification [inter_spec] of Check/C07.v), and the per-label
+   crop + extrude = original measure identity. Statements only. *)
+From PV Require Import Model.AnnotationOps Proofs.SupportP Proofs.AnnotationInvP Proofs.AnnCropP.
+
+Section C07.
+Variable eps : Z.
+Hypothesis Heps : 0 <= eps.
+
+Theorem C07_crop_loose_keeps_whole_selected_segments : forall a S s, AInv eps a ->
+  sd_get s (a_tracks (crop_ann eps a S Loose)) =
+    if existsb (fun r => intersects eps s r) (norm_support eps S) then sd_get s (a_tracks a) else None.
+Proof. exact (crop_loose_tracks eps Heps). Qed.
+Theorem C07_crop_strict_keeps_whole_contained_segments : forall a S s, AInv eps a ->
+  sd_get s (a_tracks (crop_ann eps a S Strict)) =
+    if existsb (fun r => intersects eps s r && sin r s) (norm_support eps S) then sd_get s (a_tracks a) else None.
+Proof. exact (crop_strict_tracks eps Heps). Qed.
+Theorem C07_crop_carries_uri_and_modality : forall a S md,
+  a_uri (crop_ann eps a S md) = a_uri a /\ a_modality (crop_ann eps a S md) = a_modality a.
+Proof. exact (crop_meta eps). Qed.
+Theorem C07_extrude_is_crop_on_the_complement : forall a removed md,
+  extrude_ann eps a removed md =
+  crop_ann eps a (SupTl (gaps eps (match removed with SupSeg x => tl_of eps [x] | SupTl l => l end)
+                              (Some (SupTl (tl_of eps [extent_l (tl_of eps (map fst (a_tracks a)))])))))
+           (swap_mode md).
+Proof. exact (extrude_def eps). Qed.
+Theorem C07_extrude_carries_uri_and_modality : forall a removed md,
+  a_uri (extrude_ann eps a removed md) = a_uri a /\ a_modality (extrude_ann eps a removed md) = a_modality a.
+Proof. exact (extrude_meta eps). Qed.
+Theorem C07_intersection_never_overwrites : forall c i t,
+  ~ In (new_track c i (Some t) None) (get_tracks c i) \/
+  (new_track c i (Some t) None = t /\ ~ In t (get_tracks c i)).
+Proof. exact inter_insertions_never_overwrite. Qed.
+End C07.
+
+Example C07_nonvacuous :
+  let a := ann_of 0 (Some "u"%string) None [((0, 10), NStr "x", NStr "A"); ((2, 10), NStr "x", NStr "B")] in
+  itertracks (crop_ann 0 a (SupSeg (2, 12)) Inter) = [((2, 10), NStr "0", NStr "B"); ((2, 10), NStr "x", NStr "A")] /\
+  itertracks (crop_ann 0 a (SupSeg (2, 12)) Strict) = [((2, 10), NStr "x", NStr "B")] /\
+  itertracks (extrude_ann 0 a (SupSeg (2, 12)) Inter) = [((0, 2), NStr "x", NStr "A")].
+Proof. vm_compute. repeat split. Qed.
+
+Print Assumptions C07_crop_loose_keeps_whole_selected_segments.
+Print Assumptions C07_crop_strict_keeps_whole_contained_segments.
+Print Assumptions C07_crop_carries_uri_and_modality.
+Print Assumptions C07_extrude_is_crop_on_the_complement.
+Print Assumptions C07_extrude_carries_uri_and_modality.
+Print Assumptions C07_intersection_never_overwrites.
